@@ -342,7 +342,7 @@ theorem post_extendFunctionEnv {st : St} (hI : Inv st) {f : FuncVal} (hf : f.env
   generalize (if (sameFunction cf f) = true then st.cur else f.env) = parent at hp
   obtain ⟨pf, hpf⟩ := frame_exists hp
   refine Post.bind_read (runM_getFrame hpf) ?_
-  refine Post.bind (post_newFrame hI (nf := { outer := some parent, depth := pf.depth + 1, cacheKey := f.key, function := some f })
+  refine Post.bind (post_newFrame hI (nf := { outer := some parent, depth := pf.depth + 1, cacheKey := f.key, function := some f, localFunc := (sameFunction cf f && cf.localFunc) })
     ?_ ?_ rfl) ?_
   · intro o ho
     cases ho
